@@ -5,23 +5,37 @@
 import GFO.Model.Proto
 open GFO GFO.Proto
 
+/-- one recorded backend interaction of the real run -/
+inductive Item where
+  | pos (isInit : Bool) (p : Pos)
+  | raise                                  -- the real backend method raised at this point
+deriving Inhabited
+
 /-- scripted backend: replays the positions the real optimizer emitted, insisting on the same call kinds -/
 structure Script where
-  queue : List (Bool × Pos) := []     -- (true = init_pos | false = iterate, position)
+  queue : List Item := []
 deriving Inhabited
+
+def Script.raisesNow (s : Script) : Bool := match s.queue with
+  | .raise :: _ => true
+  | _ => false
+
+def backendRaised : Err := .other "backend-raised"
 
 def scripted : Backend Script where
   initPos s := match s.queue with
-    | (true, p) :: q => .ok (p, { queue := q })
-    | (false, _) :: _ => .error (.other "model-called-init_pos-real-called-iterate")
+    | .raise :: _ => .error backendRaised
+    | .pos true p :: q => .ok (p, { queue := q })
+    | .pos false _ :: _ => .error (.other "model-called-init_pos-real-called-iterate")
     | [] => .error .needMore
   iterate s := match s.queue with
-    | (false, p) :: q => .ok (p, { queue := q })
-    | (true, _) :: _ => .error (.other "model-called-iterate-real-called-init_pos")
+    | .raise :: _ => .error backendRaised
+    | .pos false p :: q => .ok (p, { queue := q })
+    | .pos true _ :: _ => .error (.other "model-called-iterate-real-called-init_pos")
     | [] => .error .needMore
-  evalInit s _ := .ok s
-  evaluate s _ := .ok s
-  finishInit s := .ok s
+  evalInit s _ := if s.raisesNow then .error backendRaised else .ok s
+  evaluate s _ := if s.raisesNow then .error backendRaised else .ok s
+  finishInit s := if s.raisesNow then .error backendRaised else .ok s
 
 structure M where
   sp : Space := { names := [], dims := [] }
@@ -86,6 +100,7 @@ def showNatLists (l : List (List Nat)) : String := showList (showList toString) 
 
 def exec (m : M) (cmd : String) : P (M × List String) := do
   match cmd with
+  | "mark" => pure (m, ["----"])
   | "space" => do
     let sp ← pSpace
     pure ({ m with sp := sp }, ["ok"])
@@ -159,8 +174,10 @@ def exec (m : M) (cmd : String) : P (M × List String) := do
     let p ← pN m.sp.dims.length pInt
     let dur ← pRat
     let r ← pRes
-    let q := m.d.bst.queue ++ [(decide (kind = "I"), p)]
+    let q := m.d.bst.queue ++ [Item.pos (decide (kind = "I")) p]
     pure ({ m with d := { m.d with bst := { queue := q } }, steps := m.steps.push (r, dur) }, ["ok"])
+  | "draise" =>
+    pure ({ m with d := { m.d with bst := { queue := m.d.bst.queue ++ [Item.raise] } } }, ["ok"])
   | "dobj" => do
     let dur ← pRat; let r ← pRes
     pure ({ m with byCall := m.byCall.push (r, dur) }, ["ok"])
